@@ -255,7 +255,7 @@ def isal_cover_post(results, libinfos, counts):
 
 
 def params_tasks(tier):
-    n = 16 if tier == "quick" else 400
+    n = 16 if tier == "quick" else 2000
     return [dict(engine="params", variant=v, args=["--prop", "C16", "--from", f, "--count", c]) for v in ("plain", "asan") for (f, c) in split(n if v == "plain" else max(4, n // 4), 8)]
 
 
@@ -464,7 +464,7 @@ CHECKS = {
               "enc and dec, raw and pre-expanded keys (schedules from the FIPS-197 reference), both key sizes, in-place or disjoint, random alignment of data, keys and tweak; "
               "distinct_nontrivial = distinct (family, key size, dir, expanded, in-place, route, length class)"),
         assumptions=AES_TRUST,
-        tasks=aes_tasks("C03", "xts", ["sse", "avx", "vaes"], 1500, 40000),
+        tasks=aes_tasks("C03", "xts", ["sse", "avx", "vaes"], 1500, 200000, parts_t=6),
     ),
     "C04": dict(
         technique='runtime differential oracle: FIPS-197 key schedules and SP 800-38A CBC reference vs every family and route',
@@ -511,7 +511,7 @@ CHECKS = {
               "the 256-entry table is compared with a pinned golden copy; mask_gen is checked for all shifts around all powers of two; the state memory is junk before init, in a quarter of the cases "
               "junk whose every word equals the requested window; per scan kernel two single run calls over more than 2^31 bytes of random data (hit just below / above 2^31) against an incremental model"),
         assumptions=TRUST + ["golden copy of the rolling-hash table taken from the pinned snapshot (the constant defines the on-disk chunking format)"],
-        tasks=lambda tier: mh_tasks("C09", ["rolling"], ["base", "00", "04"], 1500, 30000)(tier) + noarch_mh_tasks("C09", ["rolling"], tier)
+        tasks=lambda tier: mh_tasks("C09", ["rolling"], ["base", "00", "04"], 1500, 150000, parts_t=5)(tier) + noarch_mh_tasks("C09", ["rolling"], tier)
         + [dict(engine="mhroll", variant="plain", timeout=3000, args=["--prop", "C09", "--what", "rolling_huge", "--fam", f, "--from", 0, "--count", 1, "--watchdog", 2900]) for f in ("base", "00", "04")],
     ),
     "C08": dict(
@@ -551,7 +551,7 @@ CHECKS = {
               "raw key halves, every encryption and decryption round key, GHASH key H raw and byte-reflected, every 16-byte entry of the hash-key table as stored by precompute, "
               "E_K2(tweak). The same scenarios also run on a build with SAFE_PARAM=n (SAFE_DATA is a separate, still default option there). distinct_nontrivial = distinct (function, argument class)"),
         assumptions=TRUST + ["a secret kept in another encoding (masked, split across registers) is not recognised; general-purpose registers are not scanned (the property names vector registers and stack)"],
-        tasks=lambda tier: tramp_tasks("C14", "secrets", ["gcm", "xts", "cbc"], 400, 12000)(tier)
+        tasks=lambda tier: tramp_tasks("C14", "secrets", ["gcm", "xts", "cbc"], 400, 60000)(tier)
         + [dict(engine="trampeng", variant="noparam", args=["--prop", "C14", "--mode", "secrets", "--what", g, "--from", 0, "--count", 60 if tier == "quick" else 1500]) for g in ("gcm", "xts", "cbc")],
     ),
     "C20": dict(
@@ -610,7 +610,7 @@ CHECKS = {
               "crypto routine entered; on a first call the AES and SHA self-tests must each be entered exactly once, no slot may be resolved before they start, and the verdict must be "
               "published. The entry list is checked against nm of the FIPS build. distinct_nontrivial = distinct (entry, state, injection mode) and (xts entry, key-pair variant)"),
         assumptions=TRUST + ["crypto work is observed through resolution of re-armed dispatch slots (every approved algorithm reaches its kernels through a dispatched entry)"],
-        tasks=lambda tier: [dict(engine="fips", variant="fips", args=["--prop", "C13", "--from", f, "--count", c]) for (f, c) in split(48 if tier == "quick" else 4000, 8 if tier == "quick" else 16)]
+        tasks=lambda tier: [dict(engine="fips", variant="fips", args=["--prop", "C13", "--from", f, "--count", c]) for (f, c) in split(48 if tier == "quick" else 20000, 8 if tier == "quick" else 16)]
         + [dict(engine="fips", variant="fips-noparam", args=["--prop", "C13", "--from", f, "--count", c]) for (f, c) in split(12 if tier == "quick" else 600, 4)]
         # the portable self-test driver (fips/self_tests_generic.c, make arch=noarch FIPS_MODE=y): AES group always a stub (no AES unit), SHA group real or stub
         + [dict(engine="fips", variant="fips-noarch", args=["--prop", "C13", "--noarch", 1, "--from", f, "--count", c]) for (f, c) in split(24 if tier == "quick" else 1200, 4)],
